@@ -321,3 +321,859 @@ Proof.
   destruct (i =? id); [exact ND'|]. cbn [q_ids map snd]. constructor; [|exact (IH ND')].
   intros F. apply (q_ids_remove i id q ND') in F. exact (Hz (proj2 F)).
 Qed.
+
+(* ---- release / finish, and the outcomes of a step ------------------------------------------------ *)
+Definition started (sq : N) (c : pcall) : pcall :=
+  {| k_id := k_id c; k_prio := k_prio c; k_fid := k_fid c; k_seq := sq; k_stage := PSending;
+     k_reply := RNone |}.
+
+Lemma finish_fst : forall st id o,
+  fst (finish st id o) = fst (release (with_calls st (call_del id (p_calls st)))).
+Proof. intros st id o. unfold finish. destruct (release _) as [st1 os]. reflexivity. Qed.
+
+Lemma finish_snd : forall st id o,
+  snd (finish st id o) = o :: snd (release (with_calls st (call_del id (p_calls st)))).
+Proof. intros st id o. unfold finish. destruct (release _) as [st1 os]. reflexivity. Qed.
+
+Lemma finish_after_set : forall st c o, call_get (k_id c) (p_calls st) <> None ->
+  finish (with_calls st (call_set c (p_calls st))) (k_id c) o = finish st (k_id c) o.
+Proof.
+  intros st c o H. unfold finish, with_calls.
+  cbn [p_seq p_awaiting p_holder p_queue p_counter p_calls].
+  rewrite (call_del_set c (p_calls st) H). reflexivity.
+Qed.
+
+Lemma release_out_sends : forall st o, In o (snd (release st)) -> exists id s f, o = OSend id s f.
+Proof.
+  intros st o. unfold release. destruct (p_queue st) as [|[[p n] h] q']; cbn [snd]; [intros []|].
+  destruct (call_get h (p_calls st)) as [c|]; cbn [snd start_call]; [|intros []].
+  intros [H|[]]. eexists _, _, _. symmetry. exact H.
+Qed.
+
+(* What a step that is not an ECall and does not cancel a queued call can do.  [tgt]/[ro]: the call
+   a reply is being delivered to, and that reply (RNone when the event delivers nothing). *)
+Inductive outcome (st : pstate) (tgt : N) (ro : reply) : pstate * list pout -> Prop :=
+| oc_noop : outcome st tgt ro (st, [])
+| oc_upd : forall id c c',
+    call_get id (p_calls st) = Some c -> k_id c' = id ->
+    (k_stage c = PQueued <-> k_stage c' = PQueued) ->
+    (k_stage c' = PWaiting -> k_reply c' = RNone) ->
+    (k_reply c' = k_reply c \/ (k_reply c' = ro /\ id = tgt)) ->
+    outcome st tgt ro (with_calls st (call_set c' (p_calls st)), [])
+| oc_ret : forall id c vs,
+    call_get id (p_calls st) = Some c -> k_stage c <> PQueued ->
+    (k_reply c = RValues vs \/ (ro = RValues vs /\ id = tgt)) ->
+    outcome st tgt ro (finish st id (OReturn id vs))
+| oc_raise : forall id c k,
+    call_get id (p_calls st) = Some c -> k_stage c <> PQueued ->
+    outcome st tgt ro (finish st id (ORaise id k)).
+
+Lemma deliver_outcome : forall st call r, outcome st call r (deliver st call r).
+Proof.
+  intros st call r. unfold deliver.
+  destruct (call_get call (p_calls st)) as [c|] eqn:G; [|apply oc_noop].
+  cbv zeta.
+  assert (Hid : k_id (set_reply c r) = call) by (cbn; apply call_get_In in G; tauto).
+  assert (Hrep : k_reply (set_reply c r) = k_reply c \/ (k_reply (set_reply c r) = r /\ call = call)).
+  { cbn. destruct (k_reply c); [right; split; reflexivity|left; reflexivity|left; reflexivity]. }
+  change (k_stage (set_reply c r)) with (k_stage c).
+  destruct (k_stage c) eqn:S.
+  - eapply oc_upd; [exact G|exact Hid|cbn [set_reply k_stage]; tauto| |exact Hrep].
+    cbn [set_reply k_stage]. rewrite S. discriminate.
+  - eapply oc_upd; [exact G|exact Hid|cbn [set_reply k_stage]; tauto| |exact Hrep].
+    cbn [set_reply k_stage]. rewrite S. discriminate.
+  - unfold complete_with_reply. destruct (k_reply (set_reply c r)) as [|vs|] eqn:R.
+    + eapply oc_upd; [exact G|exact Hid|cbn [set_reply k_stage]; tauto|intros _; exact R|rewrite R; exact Hrep].
+    + rewrite finish_after_set by (rewrite Hid, G; discriminate). rewrite Hid.
+      eapply oc_ret; [exact G|rewrite S; discriminate|].
+      destruct Hrep as [H|[H _]]; [left; symmetry; exact H|right; split; [symmetry; exact H|reflexivity]].
+    + rewrite finish_after_set by (rewrite Hid, G; discriminate). rewrite Hid.
+      eapply oc_raise; [exact G|rewrite S; discriminate].
+Qed.
+
+Lemma sdone_outcome : forall st id ok, outcome st 0 RNone (proto_step st (ESendDone id ok)).
+Proof.
+  intros st id ok. cbn [proto_step].
+  destruct (call_get id (p_calls st)) as [c|] eqn:G; [|apply oc_noop].
+  destruct (k_stage c) eqn:S; [apply oc_noop| |apply oc_noop].
+  assert (Hid : k_id c = id) by (apply call_get_In in G; tauto).
+  destruct ok.
+  - cbv zeta. unfold complete_with_reply.
+    assert (Hid' : k_id (set_stage c PWaiting) = id) by exact Hid.
+    destruct (k_reply (set_stage c PWaiting)) as [|vs|] eqn:R.
+    + eapply oc_upd; [exact G|exact Hid'| |intros _; exact R|left; reflexivity].
+      rewrite S. cbn. split; discriminate.
+    + rewrite finish_after_set by (rewrite Hid', G; discriminate). rewrite Hid'.
+      eapply oc_ret; [exact G|rewrite S; discriminate|left; exact R].
+    + rewrite finish_after_set by (rewrite Hid', G; discriminate). rewrite Hid'.
+      eapply oc_raise; [exact G|rewrite S; discriminate].
+  - eapply oc_raise; [exact G|rewrite S; discriminate].
+Qed.
+
+Definition frame_reply (inv : bool) (expected f : N) (vs : list ival) : reply :=
+  if inv then RInvalidCommand else if expected =? f then RValues vs else RNone.
+
+Lemma frame_outcome : forall st s f inv vs expected call,
+  aw_get s (p_awaiting st) = Some (expected, call) ->
+  outcome (pop_awaiting st s) call (frame_reply inv expected f vs)
+          (proto_step st (EFrame (DOk s f inv vs))).
+Proof.
+  intros st s f inv vs expected call A. cbn [proto_step]. rewrite A. cbv zeta. unfold frame_reply.
+  destruct inv; [apply deliver_outcome|].
+  destruct (expected =? f); [apply deliver_outcome|apply oc_noop].
+Qed.
+
+Lemma timeout_outcome : forall st id, outcome st 0 RNone (proto_step st (ETimeout id)).
+Proof.
+  intros st id. cbn [proto_step].
+  destruct (call_get id (p_calls st)) as [c|] eqn:G; [|apply oc_noop].
+  destruct (k_stage c) eqn:S; [apply oc_noop|apply oc_noop|].
+  destruct (k_reply c); [|apply oc_noop|apply oc_noop].
+  eapply oc_raise; [exact G|rewrite S; discriminate].
+Qed.
+
+Definition cancel_queued (st : pstate) (id : N) : pstate :=
+  {| p_seq := p_seq st; p_awaiting := p_awaiting st; p_holder := p_holder st;
+     p_queue := q_remove id (p_queue st); p_counter := p_counter st;
+     p_calls := call_del id (p_calls st) |}.
+
+Lemma cancel_outcome : forall st id,
+  outcome st 0 RNone (proto_step st (ECancel id)) \/
+  exists c, call_get id (p_calls st) = Some c /\ k_stage c = PQueued /\
+            proto_step st (ECancel id) = (cancel_queued st id, [ORaise id KCancelled]).
+Proof.
+  intros st id. cbn [proto_step].
+  destruct (call_get id (p_calls st)) as [c|] eqn:G; [|left; apply oc_noop].
+  destruct (k_stage c) eqn:S.
+  - right. exists c. split; [reflexivity|]. split; [exact S|reflexivity].
+  - left. eapply oc_raise; [exact G|rewrite S; discriminate].
+  - left. eapply oc_raise; [exact G|rewrite S; discriminate].
+Qed.
+
+(* ---- pass: the ids of the calls in progress come from ECall events ------------------------------- *)
+Lemma release_ids : forall st x,
+  In x (ids (p_calls (fst (release st)))) -> In x (ids (p_calls st)).
+Proof.
+  intros st x. unfold release. destruct (p_queue st) as [|[[p n] h] q']; cbn [fst p_calls]; [tauto|].
+  destruct (call_get h (p_calls st)) as [c|] eqn:G; cbn [fst start_call p_calls]; [|tauto].
+  intros H. apply ids_call_set in H. cbn [k_id] in H. destruct H as [H|H]; [|exact H].
+  apply call_get_In in G. destruct G as [G _]. subst. apply in_map. exact G.
+Qed.
+
+Lemma finish_ids : forall st id o x,
+  In x (ids (p_calls (fst (finish st id o)))) -> In x (ids (p_calls st)).
+Proof.
+  intros st id o x H. rewrite finish_fst in H. apply release_ids in H.
+  cbn [with_calls p_calls] in H. exact (ids_call_del _ _ _ H).
+Qed.
+
+Lemma outcome_ids : forall st tgt ro res x, outcome st tgt ro res ->
+  In x (ids (p_calls (fst res))) -> In x (ids (p_calls st)).
+Proof.
+  intros st tgt ro res x O. destruct O as [|id c c' G Hid _ _ _|id c vs G _ _|id c k G _]; cbn [fst].
+  - tauto.
+  - cbn [with_calls p_calls]. intros H. apply ids_call_set in H. destruct H as [H|H]; [|exact H].
+    apply call_get_In in G. destruct G as [G1 G2]. rewrite H, Hid, <- G2. apply in_map. exact G1.
+  - apply finish_ids.
+  - apply finish_ids.
+Qed.
+
+Lemma step_ids : forall st e x, In x (ids (p_calls (fst (proto_step st e)))) ->
+  In x (ids (p_calls st)) \/ exists p f, e = ECall x p f.
+Proof.
+  intros st e x H. destruct e as [id prio fid|id ok|d|id|id].
+  - cbn [proto_step] in H.
+    assert (HH : x = id \/ In x (ids (p_calls st))).
+    { destruct (p_holder st); [|destruct (p_queue st)]; cbn [fst start_call p_calls] in H;
+        apply ids_call_set in H; exact H. }
+    destruct HH as [HH|HH]; [right; subst; eauto|left; exact HH].
+  - left. exact (outcome_ids _ _ _ _ _ (sdone_outcome st id ok) H).
+  - left. destruct d as [|s f|s f|s f inv vs]; try exact H.
+    destruct (aw_get s (p_awaiting st)) as [[expected call]|] eqn:A.
+    + exact (outcome_ids _ _ _ _ _ (frame_outcome st s f inv vs expected call A) H).
+    + cbn [proto_step] in H. rewrite A in H. exact H.
+  - left. exact (outcome_ids _ _ _ _ _ (timeout_outcome st id) H).
+  - left. destruct (cancel_outcome st id) as [O|[c [G [S E]]]].
+    + exact (outcome_ids _ _ _ _ _ O H).
+    + rewrite E in H. cbn [fst cancel_queued p_calls] in H. exact (ids_call_del _ _ _ H).
+Qed.
+
+(* ---- pass: the slot / queue / calls invariant ---------------------------------------------------- *)
+Record InvC (h : option N) (q : list (Z * N * N)) (cs : list pcall) : Prop := {
+  iv_nodup : NoDup (ids cs);
+  (* a call that is sending or waiting holds the slot *)
+  iv_hold : forall id c, call_get id cs = Some c -> k_stage c <> PQueued -> h = Some id;
+  (* the queue lists exactly the queued calls, once each *)
+  iv_q1 : forall id, In id (q_ids q) -> exists c, call_get id cs = Some c /\ k_stage c = PQueued;
+  iv_q2 : forall id c, call_get id cs = Some c -> k_stage c = PQueued -> In id (q_ids q);
+  iv_qnodup : NoDup (q_ids q);
+  (* nobody queues while the slot is free *)
+  iv_free : h = None -> q = [];
+  (* the slot is held by a call that is sending or waiting *)
+  iv_holder : forall x, h = Some x -> exists c, call_get x cs = Some c /\ k_stage c <> PQueued;
+  iv_sorted : StronglySorted q_before q;
+  (* a waiting call has no reply yet (a reply completes it at once) *)
+  iv_wait : forall id c, call_get id cs = Some c -> k_stage c = PWaiting -> k_reply c = RNone
+}.
+
+Definition Inv (st : pstate) : Prop := InvC (p_holder st) (p_queue st) (p_calls st).
+
+Lemma Inv_init : Inv p_init.
+Proof.
+  unfold Inv, p_init. cbn. constructor; cbn; try discriminate; try tauto.
+  - constructor.
+  - constructor.
+  - constructor.
+Qed.
+
+Lemma InvC_upd : forall h q cs id c c',
+  InvC h q cs -> call_get id cs = Some c -> k_id c' = id ->
+  (k_stage c = PQueued <-> k_stage c' = PQueued) ->
+  (k_stage c' = PWaiting -> k_reply c' = RNone) ->
+  InvC h q (call_set c' cs).
+Proof.
+  intros h q cs id c c' I G Hid Hq Hw. destruct I as [i1 i2 i3 i4 i5 i6 i7 i8 i9].
+  constructor.
+  - apply NoDup_call_set. exact i1.
+  - intros x cx. rewrite call_get_set, Hid. destruct (N.eqb_spec id x) as [E|E].
+    + intros H S. inversion H; subst cx. subst x. apply (i2 id c G). tauto.
+    + apply i2.
+  - intros x Hx. destruct (i3 x Hx) as [cx [Gx Sx]]. rewrite call_get_set, Hid.
+    destruct (N.eqb_spec id x) as [E|E].
+    + exists c'. split; [reflexivity|]. subst x. rewrite G in Gx. inversion Gx; subst cx. tauto.
+    + exists cx. split; assumption.
+  - intros x cx. rewrite call_get_set, Hid. destruct (N.eqb_spec id x) as [E|E].
+    + intros H S. inversion H; subst cx. subst x. apply (i4 id c G). tauto.
+    + apply i4.
+  - exact i5.
+  - exact i6.
+  - intros x Hx. destruct (i7 x Hx) as [cx [Gx Sx]]. rewrite call_get_set, Hid.
+    destruct (N.eqb_spec id x) as [E|E].
+    + exists c'. split; [reflexivity|]. subst x. rewrite G in Gx. inversion Gx; subst cx. tauto.
+    + exists cx. split; assumption.
+  - exact i8.
+  - intros x cx. rewrite call_get_set, Hid. destruct (N.eqb_spec id x) as [E|E].
+    + intros H S. inversion H; subst cx. exact (Hw S).
+    + apply i9.
+Qed.
+
+(* the holder's call ends and nobody is queued *)
+Lemma InvC_finish_nil : forall h cs id c,
+  InvC h [] cs -> call_get id cs = Some c -> k_stage c <> PQueued ->
+  InvC None [] (call_del id cs).
+Proof.
+  intros h cs id c I G S. destruct I as [i1 i2 i3 i4 i5 i6 i7 i8 i9].
+  assert (Hh : h = Some id) by exact (i2 id c G S).
+  assert (Hall : forall x cx, call_get x (call_del id cs) = Some cx -> False).
+  { intros x cx. rewrite (call_get_del x id cs i1). destruct (N.eqb_spec id x) as [E|E]; [discriminate|].
+    intros Gx. destruct (k_stage cx) eqn:Sx.
+    - exact (i4 x cx Gx Sx).
+    - assert (HH : h = Some x) by (apply (i2 x cx Gx); rewrite Sx; discriminate). congruence.
+    - assert (HH : h = Some x) by (apply (i2 x cx Gx); rewrite Sx; discriminate). congruence. }
+  constructor.
+  - apply NoDup_call_del. exact i1.
+  - intros x cx Gx. destruct (Hall x cx Gx).
+  - intros x [].
+  - intros x cx Gx. destruct (Hall x cx Gx).
+  - constructor.
+  - reflexivity.
+  - discriminate.
+  - constructor.
+  - intros x cx Gx. destruct (Hall x cx Gx).
+Qed.
+
+(* the holder's call ends and the head of the queue starts *)
+Lemma InvC_finish_cons : forall h p n hd q' cs id c,
+  InvC h ((p, n, hd) :: q') cs -> call_get id cs = Some c -> k_stage c <> PQueued ->
+  exists ch, call_get hd (call_del id cs) = Some ch /\
+    forall sq, InvC (Some hd) q' (call_set (started sq ch) (call_del id cs)).
+Proof.
+  intros h p n hd q' cs id c I G S. destruct I as [i1 i2 i3 i4 i5 i6 i7 i8 i9].
+  assert (Hh : h = Some id) by exact (i2 id c G S).
+  destruct (i3 hd (or_introl eq_refl)) as [ch [Gh Sh]].
+  assert (Hne : id <> hd).
+  { intros E. subst hd. rewrite G in Gh. inversion Gh; subst ch. exact (S Sh). }
+  cbn [q_ids map snd] in i5. inversion i5 as [|z zs Hz ND']; subst z zs.
+  assert (Hidh : k_id ch = hd) by (apply call_get_In in Gh; tauto).
+  exists ch. split.
+  { rewrite (call_get_del hd id cs i1). destruct (N.eqb_spec id hd) as [E|E]; [destruct (Hne E)|exact Gh]. }
+  intros sq.
+  assert (GG : forall x, call_get x (call_set (started sq ch) (call_del id cs)) =
+                         if hd =? x then Some (started sq ch)
+                         else if id =? x then None else call_get x cs).
+  { intros x. rewrite call_get_set. cbn [started k_id]. rewrite Hidh.
+    rewrite (call_get_del x id cs i1). reflexivity. }
+  constructor.
+  - apply NoDup_call_set. apply NoDup_call_del. exact i1.
+  - intros x cx. rewrite GG. destruct (N.eqb_spec hd x) as [E|E]; [intros _ _; congruence|].
+    destruct (N.eqb_spec id x) as [E1|E1]; [discriminate|].
+    intros Gx Sx. assert (HH : h = Some x) by exact (i2 x cx Gx Sx). congruence.
+  - intros x Hx. destruct (i3 x (or_intror Hx)) as [cx [Gx Sx]]. exists cx. rewrite GG.
+    destruct (N.eqb_spec hd x) as [E|E]; [subst x; destruct (Hz Hx)|].
+    destruct (N.eqb_spec id x) as [E1|E1].
+    + subst x. rewrite G in Gx. inversion Gx; subst cx. destruct (S Sx).
+    + split; assumption.
+  - intros x cx. rewrite GG. destruct (N.eqb_spec hd x) as [E|E].
+    + intros H Sx. inversion H; subst cx. cbn in Sx. discriminate.
+    + destruct (N.eqb_spec id x) as [E1|E1]; [discriminate|]. intros Gx Sx.
+      destruct (i4 x cx Gx Sx) as [H|H]; [destruct (E H)|exact H].
+  - exact ND'.
+  - discriminate.
+  - intros x Hx. inversion Hx; subst x. exists (started sq ch). rewrite GG, N.eqb_refl.
+    split; [reflexivity|cbn; discriminate].
+  - apply StronglySorted_inv in i8. exact (proj1 i8).
+  - intros x cx. rewrite GG. destruct (N.eqb_spec hd x) as [E|E].
+    + intros H Sx. inversion H; subst cx. cbn in Sx. discriminate.
+    + destruct (N.eqb_spec id x) as [E1|E1]; [discriminate|]. apply i9.
+Qed.
+
+Lemma Inv_finish : forall st id c o,
+  Inv st -> call_get id (p_calls st) = Some c -> k_stage c <> PQueued ->
+  Inv (fst (finish st id o)).
+Proof.
+  intros st id c o I G S. rewrite finish_fst. unfold Inv in *. unfold release.
+  cbn [with_calls p_seq p_awaiting p_holder p_queue p_counter p_calls].
+  destruct (p_queue st) as [|[[p n] hd] q'].
+  - cbn [fst p_holder p_queue p_calls]. exact (InvC_finish_nil _ _ _ _ I G S).
+  - destruct (InvC_finish_cons _ _ _ _ _ _ _ _ I G S) as [ch [Gh Ih]]. rewrite Gh.
+    cbn [fst start_call p_holder p_queue p_calls p_seq].
+    assert (Hidh : k_id ch = hd) by (apply call_get_In in Gh; tauto). rewrite Hidh.
+    specialize (Ih (p_seq st)). unfold started in Ih. rewrite Hidh in Ih. exact Ih.
+Qed.
+
+Lemma Inv_outcome : forall st tgt ro res, Inv st -> outcome st tgt ro res -> Inv (fst res).
+Proof.
+  intros st tgt ro res I O.
+  destruct O as [|id c c' G Hid Hq Hw _|id c vs G S _|id c k G S]; cbn [fst].
+  - exact I.
+  - unfold Inv in *. cbn [with_calls p_holder p_queue p_calls].
+    exact (InvC_upd _ _ _ _ _ _ I G Hid Hq Hw).
+  - exact (Inv_finish _ _ _ _ I G S).
+  - exact (Inv_finish _ _ _ _ I G S).
+Qed.
+
+Lemma InvC_call_start : forall cs c,
+  InvC None [] cs -> k_stage c = PSending ->
+  InvC (Some (k_id c)) [] (call_set c cs).
+Proof.
+  intros cs c I S. destruct I as [i1 i2 i3 i4 i5 i6 i7 i8 i9].
+  constructor.
+  - apply NoDup_call_set. exact i1.
+  - intros x cx. rewrite call_get_set. destruct (N.eqb_spec (k_id c) x) as [E|E]; [intros; congruence|].
+    intros Gx Sx. assert (HH : None = Some x) by exact (i2 x cx Gx Sx). discriminate.
+  - intros x [].
+  - intros x cx. rewrite call_get_set. destruct (N.eqb_spec (k_id c) x) as [E|E].
+    + intros H Sx. inversion H; subst cx. congruence.
+    + apply i4.
+  - constructor.
+  - discriminate.
+  - intros x Hx. inversion Hx; subst x. exists c. rewrite call_get_set, N.eqb_refl.
+    split; [reflexivity|rewrite S; discriminate].
+  - constructor.
+  - intros x cx. rewrite call_get_set. destruct (N.eqb_spec (k_id c) x) as [E|E].
+    + intros H Sx. inversion H; subst cx. congruence.
+    + apply i9.
+Qed.
+
+Lemma InvC_call_queue : forall h q cs c p n,
+  InvC h q cs -> h <> None -> call_get (k_id c) cs = None -> k_stage c = PQueued ->
+  InvC h (q_insert (p, n, k_id c) q) (call_set c cs).
+Proof.
+  intros h q cs c p n I Hh Hfresh S. destruct I as [i1 i2 i3 i4 i5 i6 i7 i8 i9].
+  constructor.
+  - apply NoDup_call_set. exact i1.
+  - intros x cx. rewrite call_get_set. destruct (N.eqb_spec (k_id c) x) as [E|E].
+    + intros H Sx. inversion H; subst cx. destruct (Sx S).
+    + apply i2.
+  - intros x Hx. apply q_ids_insert in Hx. rewrite call_get_set.
+    destruct (N.eqb_spec (k_id c) x) as [E|E].
+    + exists c. split; [reflexivity|exact S].
+    + destruct Hx as [Hx|Hx]; [destruct (E (eq_sym Hx))|]. exact (i3 x Hx).
+  - intros x cx. rewrite call_get_set. destruct (N.eqb_spec (k_id c) x) as [E|E].
+    + intros _ _. apply q_ids_insert. left. symmetry. exact E.
+    + intros Gx Sx. apply q_ids_insert. right. exact (i4 x cx Gx Sx).
+  - apply NoDup_q_insert; [|exact i5]. intros F. destruct (i3 _ F) as [cx [Gx _]]. congruence.
+  - intros F. destruct (Hh F).
+  - intros x Hx. destruct (i7 x Hx) as [cx [Gx Sx]]. exists cx. rewrite call_get_set.
+    destruct (N.eqb_spec (k_id c) x) as [E|E]; [congruence|]. split; assumption.
+  - apply q_insert_sorted. exact i8.
+  - intros x cx. rewrite call_get_set. destruct (N.eqb_spec (k_id c) x) as [E|E].
+    + intros H Sx. inversion H; subst cx. congruence.
+    + apply i9.
+Qed.
+
+Lemma InvC_cancel_queued : forall h q cs id c,
+  InvC h q cs -> call_get id cs = Some c -> k_stage c = PQueued ->
+  InvC h (q_remove id q) (call_del id cs).
+Proof.
+  intros h q cs id c I G S. destruct I as [i1 i2 i3 i4 i5 i6 i7 i8 i9].
+  constructor.
+  - apply NoDup_call_del. exact i1.
+  - intros x cx. rewrite (call_get_del x id cs i1).
+    destruct (N.eqb_spec id x) as [E|E]; [discriminate|apply i2].
+  - intros x Hx. apply (q_ids_remove x id q i5) in Hx. destruct Hx as [Hne Hx].
+    destruct (i3 x Hx) as [cx [Gx Sx]]. exists cx. rewrite (call_get_del x id cs i1).
+    destruct (N.eqb_spec id x) as [E|E]; [destruct (Hne (eq_sym E))|]. split; assumption.
+  - intros x cx. rewrite (call_get_del x id cs i1).
+    destruct (N.eqb_spec id x) as [E|E]; [discriminate|]. intros Gx Sx.
+    apply (q_ids_remove x id q i5). split; [intros F; exact (E (eq_sym F))|exact (i4 x cx Gx Sx)].
+  - apply NoDup_q_remove. exact i5.
+  - intros Hh. rewrite (i6 Hh). reflexivity.
+  - intros x Hx. destruct (i7 x Hx) as [cx [Gx Sx]]. exists cx. rewrite (call_get_del x id cs i1).
+    destruct (N.eqb_spec id x) as [E|E]; [|split; assumption].
+    subst x. rewrite G in Gx. inversion Gx; subst cx. destruct (Sx S).
+  - apply q_remove_sorted. exact i8.
+  - intros x cx. rewrite (call_get_del x id cs i1).
+    destruct (N.eqb_spec id x) as [E|E]; [discriminate|apply i9].
+Qed.
+
+Lemma Inv_pop : forall st s, Inv st -> Inv (pop_awaiting st s).
+Proof. intros st s I. exact I. Qed.
+
+Lemma Inv_step : forall st e, Inv st ->
+  (forall id p f, e = ECall id p f -> call_get id (p_calls st) = None) ->
+  Inv (fst (proto_step st e)).
+Proof.
+  intros st e I Hfresh. destruct e as [id prio fid|id ok|d|id|id].
+  - specialize (Hfresh id prio fid eq_refl). unfold Inv in *. cbn [proto_step].
+    destruct (p_holder st) as [h|] eqn:Hh.
+    + cbn [fst p_holder p_queue p_calls].
+      apply (InvC_call_queue (Some h) (p_queue st) (p_calls st)
+               {| k_id := id; k_prio := prio; k_fid := fid; k_seq := 0; k_stage := PQueued;
+                  k_reply := RNone |}); [exact I|discriminate|exact Hfresh|reflexivity].
+    + assert (Hq : p_queue st = []) by exact (iv_free _ _ _ I eq_refl). rewrite Hq in *.
+      cbn [fst start_call p_holder p_queue p_calls k_id k_prio k_fid]. rewrite Hq.
+      apply (InvC_call_start (p_calls st)
+               {| k_id := id; k_prio := prio; k_fid := fid; k_seq := p_seq st; k_stage := PSending;
+                  k_reply := RNone |}); [exact I|reflexivity].
+  - exact (Inv_outcome _ _ _ _ I (sdone_outcome st id ok)).
+  - destruct d as [|s f|s f|s f inv vs]; try exact I.
+    destruct (aw_get s (p_awaiting st)) as [[expected call]|] eqn:A.
+    + exact (Inv_outcome _ _ _ _ (Inv_pop st s I) (frame_outcome st s f inv vs expected call A)).
+    + cbn [proto_step]. rewrite A. exact I.
+  - exact (Inv_outcome _ _ _ _ I (timeout_outcome st id)).
+  - destruct (cancel_outcome st id) as [O|[c [G [S E]]]].
+    + exact (Inv_outcome _ _ _ _ I O).
+    + rewrite E. unfold Inv in *. cbn [fst cancel_queued p_holder p_queue p_calls].
+      exact (InvC_cancel_queued _ _ _ _ _ I G S).
+Qed.
+
+Lemma reach_Inv : forall es, calls_unique es ->
+  Inv (final es) /\ (forall x, In x (ids (p_calls (final es))) -> In x (calls es)).
+Proof.
+  induction es as [|e es IH] using rev_ind; intros U.
+  - split; [exact Inv_init|]. intros x [].
+  - apply calls_unique_snoc in U. destruct U as [U Hf]. destruct (IH U) as [I Hsub].
+    rewrite final_snoc. split.
+    + apply Inv_step; [exact I|]. intros id p f E. apply call_get_None. intros F.
+      exact (Hf id p f E (Hsub id F)).
+    + intros x Hx. rewrite calls_snoc. apply in_or_app. apply step_ids in Hx.
+      destruct Hx as [Hx|[p [f E]]]; [left; exact (Hsub x Hx)|right; subst e; left; reflexivity].
+Qed.
+
+Lemma reachable_Inv : forall st, reachable st -> Inv st.
+Proof. intros st [es [U E]]. subst st. exact (proj1 (reach_Inv es U)). Qed.
+
+(* ---- consequences of the invariant ---------------------------------------------------------------- *)
+Lemma in_flight_In : forall st c,
+  In c (in_flight st) <-> In c (p_calls st) /\ k_stage c <> PQueued.
+Proof.
+  intros st c. unfold in_flight. rewrite filter_In.
+  destruct (k_stage c); split; intros [H1 H2]; split; try exact H1; try reflexivity;
+    try discriminate; exfalso; apply H2; reflexivity.
+Qed.
+
+Lemma Inv_in_flight_holder : forall st c, Inv st -> In c (in_flight st) ->
+  p_holder st = Some (k_id c).
+Proof.
+  intros st c I H. apply in_flight_In in H. destruct H as [H S].
+  apply (iv_hold _ _ _ I (k_id c) c); [|exact S]. apply In_call_get; [exact (iv_nodup _ _ _ I)|exact H].
+Qed.
+
+Lemma filter_le1 : forall (f : pcall -> bool) h l, NoDup (ids l) ->
+  (forall c, In c l -> f c = true -> k_id c = h) -> (List.length (filter f l) <= 1)%nat.
+Proof.
+  induction l as [|a l IH]; intros ND H; cbn [filter]; [cbn; lia|].
+  cbn [ids map] in ND. inversion ND as [|y ys Hn ND']; subst y ys.
+  assert (H' : forall c, In c l -> f c = true -> k_id c = h)
+    by (intros c Hc; apply H; right; exact Hc).
+  destruct (f a) eqn:Fa; [|exact (IH ND' H')].
+  assert (E : filter f l = []).
+  { destruct (filter f l) as [|b t] eqn:E; [reflexivity|]. exfalso.
+    assert (Hb : In b (filter f l)) by (rewrite E; left; reflexivity).
+    apply filter_In in Hb. destruct Hb as [Hb Fb]. apply Hn.
+    rewrite (H a (or_introl eq_refl) Fa), <- (H' b Hb Fb). apply in_map. exact Hb. }
+  rewrite E. cbn. lia.
+Qed.
+
+Lemma one_in_flight : forall es, calls_unique es ->
+  (List.length (in_flight (final es)) <= 1)%nat /\
+  (forall c, In c (in_flight (final es)) -> p_holder (final es) = Some (k_id c)).
+Proof.
+  intros es U. destruct (reach_Inv es U) as [I _]. split.
+  - assert (Hall : forall c, In c (p_calls (final es)) ->
+                     match k_stage c with PQueued => false | _ => true end = true ->
+                     p_holder (final es) = Some (k_id c)).
+    { intros c Hc Fc. apply (Inv_in_flight_holder _ _ I). unfold in_flight. apply filter_In.
+      split; assumption. }
+    unfold in_flight. destruct (p_holder (final es)) as [h|].
+    + apply (filter_le1 _ h); [exact (iv_nodup _ _ _ I)|].
+      intros c Hc Fc. specialize (Hall c Hc Fc). congruence.
+    + apply (filter_le1 _ 0); [exact (iv_nodup _ _ _ I)|].
+      intros c Hc Fc. specialize (Hall c Hc Fc). discriminate.
+  - intros c Hc. exact (Inv_in_flight_holder _ _ I Hc).
+Qed.
+
+Lemma queue_sorted : forall es, calls_unique es -> StronglySorted q_before (p_queue (final es)).
+Proof. intros es U. exact (iv_sorted _ _ _ (proj1 (reach_Inv es U))). Qed.
+
+Lemma no_slot_leak : forall es, calls_unique es ->
+  p_holder (final es) = None -> p_queue (final es) = [] /\ in_flight (final es) = [].
+Proof.
+  intros es U Hh. destruct (reach_Inv es U) as [I _]. split; [exact (iv_free _ _ _ I Hh)|].
+  destruct (in_flight (final es)) as [|c t] eqn:E; [reflexivity|]. exfalso.
+  assert (Hc : In c (in_flight (final es))) by (rewrite E; left; reflexivity).
+  rewrite (Inv_in_flight_holder _ _ I Hc) in Hh. discriminate.
+Qed.
+
+(* the other half of "no exit path leaks the slot": a held slot is held by a call in flight *)
+Lemma holder_in_flight : forall es h, calls_unique es -> p_holder (final es) = Some h ->
+  exists c, In c (in_flight (final es)) /\ k_id c = h.
+Proof.
+  intros es h U Hh. destruct (reach_Inv es U) as [I _].
+  destruct (iv_holder _ _ _ I h Hh) as [c [G S]]. apply call_get_In in G. destruct G as [G1 G2].
+  exists c. split; [|exact G2]. apply in_flight_In. split; assumption.
+Qed.
+
+Lemma head_starts : forall st p n id q c, p_queue st = (p, n, id) :: q ->
+  call_get id (p_calls st) = Some c ->
+  exists s, In (OSend id s (k_fid c)) (snd (release st)).
+Proof.
+  intros st p n id q c Hq G. unfold release. rewrite Hq, G. cbn [snd start_call].
+  exists (p_seq st). left. apply call_get_In in G. destruct G as [_ G]. rewrite G. reflexivity.
+Qed.
+
+Lemma callbacks_once : forall st s f inv vs,
+  aw_get s (p_awaiting st) = None ->
+  proto_step st (EFrame (DOk s f inv vs)) = (st, [OCallback f vs]).
+Proof. intros st s f inv vs A. cbn [proto_step]. rewrite A. reflexivity. Qed.
+
+Lemma finish_out : forall st id o x, In x (snd (finish st id o)) ->
+  x = o \/ exists id' s f, x = OSend id' s f.
+Proof.
+  intros st id o x H. rewrite finish_snd in H. destruct H as [H|H].
+  - left. symmetry. exact H.
+  - right. exact (release_out_sends _ _ H).
+Qed.
+
+Lemma outcome_no_callback : forall st tgt ro res f vs, outcome st tgt ro res ->
+  ~ In (OCallback f vs) (snd res).
+Proof.
+  intros st tgt ro res f vs O H. destruct O as [|id c c' _ _ _ _ _|id c vs0 _ _ _|id c k _ _];
+    cbn [snd] in H.
+  - exact H.
+  - exact H.
+  - apply finish_out in H. destruct H as [H|[a [b [d H]]]]; discriminate.
+  - apply finish_out in H. destruct H as [H|[a [b [d H]]]]; discriminate.
+Qed.
+
+Lemma pending_not_callback : forall st s f inv vs x f' vs',
+  aw_get s (p_awaiting st) = Some x ->
+  ~ In (OCallback f' vs') (snd (proto_step st (EFrame (DOk s f inv vs)))).
+Proof.
+  intros st s f inv vs [expected call] f' vs' A.
+  exact (outcome_no_callback _ _ _ _ _ _ (frame_outcome st s f inv vs expected call A)).
+Qed.
+
+Lemma deliver_return : forall st call r id vs',
+  (forall c, call_get call (p_calls st) = Some c -> k_stage c = PWaiting -> k_reply c = RNone) ->
+  In (OReturn id vs') (snd (deliver st call r)) -> id = call /\ r = RValues vs'.
+Proof.
+  intros st call r id vs' Hw H. unfold deliver in H.
+  destruct (call_get call (p_calls st)) as [c|] eqn:G; [|destruct H].
+  cbv zeta in H. change (k_stage (set_reply c r)) with (k_stage c) in H.
+  destruct (k_stage c) eqn:S; [destruct H|destruct H|].
+  assert (E : k_reply (set_reply c r) = r) by (cbn; rewrite (Hw c eq_refl S); reflexivity).
+  assert (Hid : k_id (set_reply c r) = call) by (cbn; apply call_get_In in G; tauto).
+  unfold complete_with_reply in H. rewrite E, Hid in H. destruct r as [|vs0|].
+  - destruct H.
+  - apply finish_out in H. destruct H as [H|[a [b [d H]]]]; [|discriminate].
+    inversion H. split; reflexivity.
+  - apply finish_out in H. destruct H as [H|[a [b [d H]]]]; discriminate.
+Qed.
+
+Lemma no_cross : forall st s f inv vs id vs', reachable st ->
+  In (OReturn id vs') (snd (proto_step st (EFrame (DOk s f inv vs)))) ->
+  aw_get s (p_awaiting st) = Some (f, id) /\ inv = false /\ vs' = vs.
+Proof.
+  intros st s f inv vs id vs' R H. apply reachable_Inv in R. cbn [proto_step] in H.
+  destruct (aw_get s (p_awaiting st)) as [[expected call]|] eqn:A.
+  - cbv zeta in H.
+    assert (Hw : forall c, call_get call (p_calls (pop_awaiting st s)) = Some c ->
+                   k_stage c = PWaiting -> k_reply c = RNone)
+      by (intros c; exact (iv_wait _ _ _ R call c)).
+    destruct inv.
+    + apply (deliver_return _ _ _ _ _ Hw) in H. destruct H as [_ H]. discriminate.
+    + destruct (N.eqb_spec expected f) as [E|E]; [|destruct H].
+      apply (deliver_return _ _ _ _ _ Hw) in H. destruct H as [H1 H2].
+      inversion H2. subst. split; [reflexivity|]. split; reflexivity.
+  - destruct H as [H|[]]. discriminate.
+Qed.
+
+Lemma timeout_raises_nodup : forall st id c, NoDup (ids (p_calls st)) ->
+  call_get id (p_calls st) = Some c -> k_stage c = PWaiting -> k_reply c = RNone ->
+  In (ORaise id KTimeout) (snd (proto_step st (ETimeout id))) /\
+  call_get id (p_calls (fst (proto_step st (ETimeout id)))) = None.
+Proof.
+  intros st id c ND G S R. cbn [proto_step]. rewrite G, S, R. split.
+  - rewrite finish_snd. left. reflexivity.
+  - apply call_get_None. intros F. rewrite finish_fst in F. apply release_ids in F.
+    cbn [with_calls p_calls] in F. revert F. apply call_get_None.
+    rewrite (call_get_del id id _ ND), N.eqb_refl. reflexivity.
+Qed.
+
+Lemma timeout_raises : forall st id c, reachable st -> call_get id (p_calls st) = Some c ->
+  k_stage c = PWaiting -> k_reply c = RNone ->
+  In (ORaise id KTimeout) (snd (proto_step st (ETimeout id))) /\
+  call_get id (p_calls (fst (proto_step st (ETimeout id)))) = None.
+Proof.
+  intros st id c R. apply timeout_raises_nodup. exact (iv_nodup _ _ _ (reachable_Inv st R)).
+Qed.
+
+(* ---- the priority table --------------------------------------------------------------------------- *)
+Lemma priorities_check :
+  forallb (fun x => Z.eqb (snd x) (spec_priority (fst x))) PRIORITIES = true.
+Proof. vm_compute. reflexivity. Qed.
+
+Lemma priority_classes : forall name p, In (name, p) PRIORITIES -> p = spec_priority name.
+Proof.
+  intros name p H. pose proof (proj1 (forallb_forall _ _) priorities_check _ H) as E.
+  cbn [fst snd] in E. apply Z.eqb_eq in E. exact E.
+Qed.
+
+(* ---- pass: sequence numbers ------------------------------------------------------------------------ *)
+Lemma sends_app : forall a b, sends (a ++ b) = sends a ++ sends b.
+Proof. intros a b. unfold sends. apply flat_map_app. Qed.
+
+(* a step sends at most one request; it carries the current sequence number, which then advances *)
+Definition SeqStep (sq : N) (res : pstate * list pout) : Prop :=
+  (sends (snd res) = [] /\ p_seq (fst res) = sq) \/
+  (exists id f, sends (snd res) = [(id, sq, f)] /\ p_seq (fst res) = (sq + 1) mod 256).
+
+Lemma release_seq : forall st, SeqStep (p_seq st) (release st).
+Proof.
+  intros st. unfold release, SeqStep. destruct (p_queue st) as [|[[p n] h] q'].
+  - left. split; reflexivity.
+  - destruct (call_get h (p_calls st)) as [c|].
+    + right. exists (k_id c), (k_fid c). split; reflexivity.
+    + left. split; reflexivity.
+Qed.
+
+Lemma finish_seq : forall st id o, match o with OSend _ _ _ => False | _ => True end ->
+  SeqStep (p_seq st) (finish st id o).
+Proof.
+  intros st id o Ho. pose proof (release_seq (with_calls st (call_del id (p_calls st)))) as H.
+  cbn [with_calls p_seq] in H. unfold SeqStep in *. rewrite finish_fst, finish_snd.
+  assert (E : forall l, sends (o :: l) = sends l) by (intros l; destruct o; [destruct Ho| | |]; reflexivity).
+  rewrite E. exact H.
+Qed.
+
+Lemma outcome_seq : forall st tgt ro res, outcome st tgt ro res -> SeqStep (p_seq st) res.
+Proof.
+  intros st tgt ro res O. destruct O as [|id c c' _ _ _ _ _|id c vs _ _ _|id c k _ _].
+  - left. split; reflexivity.
+  - left. split; reflexivity.
+  - apply finish_seq. exact I.
+  - apply finish_seq. exact I.
+Qed.
+
+Lemma step_seq : forall st e, SeqStep (p_seq st) (proto_step st e).
+Proof.
+  intros st e. destruct e as [id prio fid|id ok|d|id|id].
+  - cbn [proto_step]. destruct (p_holder st); [left; split; reflexivity|].
+    destruct (p_queue st); [|left; split; reflexivity].
+    right. exists id, fid. split; reflexivity.
+  - exact (outcome_seq _ _ _ _ (sdone_outcome st id ok)).
+  - destruct d as [|s f|s f|s f inv vs]; try (left; split; reflexivity).
+    destruct (aw_get s (p_awaiting st)) as [[expected call]|] eqn:A.
+    + exact (outcome_seq _ _ _ _ (frame_outcome st s f inv vs expected call A)).
+    + cbn [proto_step]. rewrite A. left. split; reflexivity.
+  - exact (outcome_seq _ _ _ _ (timeout_outcome st id)).
+  - destruct (cancel_outcome st id) as [O|[c [G [S E]]]].
+    + exact (outcome_seq _ _ _ _ O).
+    + rewrite E. left. split; reflexivity.
+Qed.
+
+Lemma seq_next : forall n, (N.of_nat n mod 256 + 1) mod 256 = N.of_nat (S n) mod 256.
+Proof.
+  intros n. rewrite Nat2N.inj_succ, <- N.add_1_r.
+  rewrite N.add_mod_idemp_l by discriminate. reflexivity.
+Qed.
+
+Lemma seq_trace : forall es,
+  map (fun x => snd (fst x)) (sends (outs es)) =
+    map (fun k => N.of_nat k mod 256) (seq 0 (List.length (sends (outs es)))) /\
+  p_seq (final es) = N.of_nat (List.length (sends (outs es))) mod 256.
+Proof.
+  induction es as [|e es IH] using rev_ind.
+  - split; reflexivity.
+  - destruct IH as [IH1 IH2]. rewrite outs_snoc, final_snoc, sends_app.
+    destruct (step_seq (final es) e) as [[E1 E2]|[id [f [E1 E2]]]]; rewrite E1, E2.
+    + rewrite app_nil_r. split; assumption.
+    + rewrite app_length, map_app. cbn [List.length map fst snd].
+      rewrite Nat.add_1_r, seq_S, map_app. cbn [map Nat.add]. rewrite IH2. split.
+      * rewrite IH1. reflexivity.
+      * apply seq_next.
+Qed.
+
+Lemma seq_consecutive : forall es, calls_unique es ->
+  map (fun x => snd (fst x)) (sends (outs es)) =
+    map (fun k => N.of_nat k mod 256) (seq 0 (List.length (sends (outs es)))).
+Proof. intros es _. exact (proj1 (seq_trace es)). Qed.
+
+(* ---- pass: where awaiting entries, replies and returns come from --------------------------------- *)
+(* Sent id s f: the request of call id went out with sequence number s and frame id f;
+   Wit id vs: a frame answering that request carried vs *)
+Definition AwOK (Sent : N -> N -> N -> Prop) (st : pstate) : Prop :=
+  forall s f id, In (s, (f, id)) (p_awaiting st) -> Sent id s f.
+Definition RpOK (Wit : N -> list ival -> Prop) (st : pstate) : Prop :=
+  forall c vs, In c (p_calls st) -> k_reply c = RValues vs -> Wit (k_id c) vs.
+Definition ProvOK (Sent : N -> N -> N -> Prop) (Wit : N -> list ival -> Prop)
+           (res : pstate * list pout) : Prop :=
+  AwOK Sent (fst res) /\ RpOK Wit (fst res) /\
+  (forall id vs, In (OReturn id vs) (snd res) -> Wit id vs).
+
+Lemma release_prov : forall Sent Wit st, AwOK Sent st -> RpOK Wit st ->
+  (forall id s f, In (OSend id s f) (snd (release st)) -> Sent id s f) ->
+  AwOK Sent (fst (release st)) /\ RpOK Wit (fst (release st)).
+Proof.
+  intros Sent Wit st HA HR. unfold release. destruct (p_queue st) as [|[[p n] h] q'].
+  - intros _. split; [exact HA|exact HR].
+  - destruct (call_get h (p_calls st)) as [c|]; [|intros _; split; [exact HA|exact HR]].
+    cbn [fst snd start_call p_seq p_awaiting p_calls]. intros Hs. split.
+    + intros s f id H. apply In_aw_set in H. destruct H as [H|H]; [|exact (HA s f id H)].
+      inversion H; subst. apply Hs. left. reflexivity.
+    + intros x vs H R. apply In_call_set in H. destruct H as [H|H]; [|exact (HR x vs H R)].
+      subst x. cbn in R. discriminate.
+Qed.
+
+Lemma finish_prov : forall Sent Wit st id o, AwOK Sent st -> RpOK Wit st ->
+  (forall id' s f, In (OSend id' s f) (snd (finish st id o)) -> Sent id' s f) ->
+  (forall i vs, o = OReturn i vs -> Wit i vs) ->
+  ProvOK Sent Wit (finish st id o).
+Proof.
+  intros Sent Wit st id o HA HR Hs Ho. unfold ProvOK. rewrite finish_fst. rewrite finish_snd in *.
+  destruct (release_prov Sent Wit (with_calls st (call_del id (p_calls st)))) as [H1 H2].
+  - exact HA.
+  - intros c vs H R. cbn [with_calls p_calls] in H. apply In_call_del in H. exact (HR c vs H R).
+  - intros id' s f H. apply Hs. right. exact H.
+  - split; [exact H1|]. split; [exact H2|]. intros i vs [H|H].
+    + exact (Ho i vs H).
+    + apply release_out_sends in H. destruct H as [a [b [d H]]]. discriminate.
+Qed.
+
+Lemma outcome_prov : forall Sent Wit st tgt ro res, AwOK Sent st -> RpOK Wit st ->
+  (forall id s f, In (OSend id s f) (snd res) -> Sent id s f) ->
+  (forall vs, ro = RValues vs -> Wit tgt vs) ->
+  outcome st tgt ro res -> ProvOK Sent Wit res.
+Proof.
+  intros Sent Wit st tgt ro res HA HR Hs Hro O.
+  destruct O as [|id c c' G Hid _ _ Hrep|id c vs G _ Hrep|id c k G _].
+  - split; [exact HA|]. split; [exact HR|]. intros id vs [].
+  - split; [exact HA|]. split; [|intros i vs []].
+    intros x vs H R. cbn [fst with_calls p_calls] in H. apply In_call_set in H.
+    destruct H as [H|H]; [|exact (HR x vs H R)]. subst x.
+    apply call_get_In in G. destruct G as [G1 G2].
+    destruct Hrep as [Hrep|[Hrep Ht]].
+    + rewrite Hid, <- G2. apply HR; [exact G1|]. rewrite <- Hrep. exact R.
+    + rewrite Hid, Ht. apply Hro. rewrite <- Hrep. exact R.
+  - apply finish_prov; [exact HA|exact HR|exact Hs|].
+    intros i vs0 E. inversion E; subst i vs0.
+    apply call_get_In in G. destruct G as [G1 G2].
+    destruct Hrep as [Hrep|[Hrep Ht]].
+    + rewrite <- G2. exact (HR c vs G1 Hrep).
+    + rewrite Ht. exact (Hro vs Hrep).
+  - apply finish_prov; [exact HA|exact HR|exact Hs|]. intros i vs E. discriminate.
+Qed.
+
+Lemma step_prov : forall Sent Wit st e, AwOK Sent st -> RpOK Wit st ->
+  (forall id s f, In (OSend id s f) (snd (proto_step st e)) -> Sent id s f) ->
+  (forall s f vs id, e = EFrame (DOk s f false vs) -> In (s, (f, id)) (p_awaiting st) -> Wit id vs) ->
+  ProvOK Sent Wit (proto_step st e).
+Proof.
+  intros Sent Wit st e HA HR Hs Hf.
+  assert (Hnone : forall vs, RNone = RValues vs -> Wit 0 vs) by (intros; discriminate).
+  destruct e as [id prio fid|id ok|d|id|id].
+  - cbn [proto_step] in *.
+    assert (Hq : ProvOK Sent Wit
+              ({| p_seq := p_seq st; p_awaiting := p_awaiting st; p_holder := p_holder st;
+                  p_queue := q_insert ((- prio)%Z, p_counter st + 1, id) (p_queue st);
+                  p_counter := p_counter st + 1;
+                  p_calls := call_set {| k_id := id; k_prio := prio; k_fid := fid; k_seq := 0;
+                                         k_stage := PQueued; k_reply := RNone |} (p_calls st) |}, [])).
+    { split; [exact HA|]. split; [|intros i vs []].
+      intros x vs H R. cbn [fst p_calls] in H. apply In_call_set in H.
+      destruct H as [H|H]; [subst x; discriminate|exact (HR x vs H R)]. }
+    destruct (p_holder st); [exact Hq|]. destruct (p_queue st); [|exact Hq].
+    cbn [start_call fst snd k_id k_fid k_prio] in *. split; [|split].
+    + intros s f i H. cbn [p_awaiting] in H. apply In_aw_set in H.
+      destruct H as [H|H]; [|exact (HA s f i H)]. inversion H; subst. apply Hs. left. reflexivity.
+    + intros x vs H R. cbn [p_calls] in H. apply In_call_set in H.
+      destruct H as [H|H]; [subst x; discriminate|exact (HR x vs H R)].
+    + intros i vs [H|[]]. discriminate.
+  - exact (outcome_prov _ _ _ _ _ _ HA HR Hs Hnone (sdone_outcome st id ok)).
+  - destruct d as [|s f|s f|s f inv vs];
+      try (split; [exact HA|split; [exact HR|intros i vs0 []]]).
+    destruct (aw_get s (p_awaiting st)) as [[expected call]|] eqn:A.
+    + apply (outcome_prov Sent Wit (pop_awaiting st s) call (frame_reply inv expected f vs)).
+      * intros s' f' i H. cbn [pop_awaiting p_awaiting] in H. apply In_aw_del in H. exact (HA s' f' i H).
+      * exact HR.
+      * exact Hs.
+      * unfold frame_reply. intros vs0 E. destruct inv; [discriminate|].
+        destruct (N.eqb_spec expected f) as [E1|E1]; [|discriminate]. inversion E; subst.
+        apply (Hf s f vs0 call eq_refl). apply aw_get_In. exact A.
+      * exact (frame_outcome st s f inv vs expected call A).
+    + cbn [proto_step]. rewrite A. split; [exact HA|]. split; [exact HR|].
+      intros i vs0 [H|[]]. discriminate.
+  - exact (outcome_prov _ _ _ _ _ _ HA HR Hs Hnone (timeout_outcome st id)).
+  - destruct (cancel_outcome st id) as [O|[c [G [S E]]]].
+    + exact (outcome_prov _ _ _ _ _ _ HA HR Hs Hnone O).
+    + rewrite E. split; [exact HA|]. split.
+      * intros x vs H R. cbn [fst cancel_queued p_calls] in H. apply In_call_del in H.
+        exact (HR x vs H R).
+      * intros i vs [H|[]]. discriminate.
+Qed.
+
+Definition witness (es : list pevent) (id : N) (vs : list ival) : Prop :=
+  exists es1 es2 s f, es = es1 ++ EFrame (DOk s f false vs) :: es2 /\ In (OSend id s f) (outs es1).
+
+Lemma witness_snoc : forall es e id vs, witness es id vs -> witness (es ++ [e]) id vs.
+Proof.
+  intros es e id vs [es1 [es2 [s [f [E H]]]]]. exists es1, (es2 ++ [e]), s, f.
+  split; [|exact H]. rewrite E, <- app_assoc. reflexivity.
+Qed.
+
+Lemma prov_trace : forall es,
+  AwOK (fun id s f => In (OSend id s f) (outs es)) (final es) /\
+  RpOK (witness es) (final es) /\
+  (forall id vs, In (OReturn id vs) (outs es) -> witness es id vs).
+Proof.
+  induction es as [|e es IH] using rev_ind.
+  - split; [intros s f id []|]. split; [intros c vs []|intros id vs []].
+  - destruct IH as [HA [HR Ho]].
+    destruct (step_prov (fun id s f => In (OSend id s f) (outs (es ++ [e]))) (witness (es ++ [e]))
+                        (final es) e) as [H1 [H2 H3]].
+    + intros s f id H. rewrite outs_snoc. apply in_or_app. left. exact (HA s f id H).
+    + intros c vs H R. apply witness_snoc. exact (HR c vs H R).
+    + intros id s f H. rewrite outs_snoc. apply in_or_app. right. exact H.
+    + intros s f vs id E H. subst e. exists es, [], s, f. split; [reflexivity|exact (HA s f id H)].
+    + rewrite final_snoc. split; [exact H1|]. split; [exact H2|].
+      intros id vs H. rewrite outs_snoc in H. apply in_app_or in H. destruct H as [H|H].
+      * apply witness_snoc. exact (Ho id vs H).
+      * exact (H3 id vs H).
+Qed.
+
+Lemma own_response : forall es id vs, calls_unique es ->
+  In (OReturn id vs) (outs es) ->
+  exists es1 es2 s f, es = es1 ++ EFrame (DOk s f false vs) :: es2 /\ In (OSend id s f) (outs es1).
+Proof. intros es id vs _ H. exact (proj2 (proj2 (prov_trace es)) id vs H). Qed.
